@@ -76,10 +76,30 @@ P["C14"] = dict(level="exploration", design="DESIGN.md 7.2", assumptions=[
  thorough=[leg("rbc","plain",2000000,16,512,30,1200), leg("rbc","asan",60000,10,64,60,600)],
  text="Seeded search over message hand-over interleavings, Byzantine behaviours (equivocation, forged echo/ready/answer for own-slot payload variants incl. floods, wrong sender, replay, malformed and short tuples, selective silence), partitions and channel-ID scripts (nested, left and recovered IDs) on the real broadcast implementation with n=2..7; agreement, integrity, FIFO order and channel isolation are checked at every delivery, validity and totality after a fault-free drain phase. Sampling, not enumeration.",
  note="trusted: the harness oracle (payload attribution), SimUnicast as a faithful model of an authenticated FIFO integer stream, libgmp/libgcrypt; the aiounicast_select byte layer is judged separately (C13)")
+SYNC = ["synchrony assumption of the protocols: honest<->honest latency <= 1 s and honest clock skew <= 3 s, private-channel time-out 3..5 s, broadcast time-out 60..90 s > 3*f*T_u + 10 s; a run in which an honest party nevertheless timed out on another honest party (drift caused by a selectively silent faulty party) is counted as excluded and not judged",
+   "at most t <= (n-1)/3 faulty parties (the same t is used for the reliable broadcast, as in the test-suite): the library's own simulate_faulty_behaviour switch, silence from the start, crash after k messages, links that drop or alter messages per recipient",
+   "small groups (512..768-bit p, 160..200-bit q); messages to sign are distinct within a run (the channel ID of a signing run contains the message); a Pedersen-VSS secret 0 is avoided for t = 0 (observation O2)",
+   "known findings F6/F7 (New-DKG extraction-complaint handling) are reported as KNOWN-FINDING lines, see known_findings.json"]
+P["C15"] = dict(level="exploration", design="DESIGN.md 7.3", assumptions=SYNC,
+ quick=[leg("dkg","plain",2500,16,16,600), leg("dkg","asan",200,10,4,900)],
+ thorough=[leg("dkg","plain",150000,16,64,600,1200), leg("dkg","asan",5000,10,16,900,600)],
+ text="Each party is a task running the library's blocking protocol calls (Pedersen VSS with honest or faulty dealer incl. Reconstruct, New-DKG, Canetti et al. DKG with share refresh, DSS key generation) over the real reliable broadcast and two simulated unicast nets, with the Sync barriers the in-tree users place between phases; n=3..7, up to t faulty parties of four kinds, latencies, one slow party, clock skew. After the run the harness collects the public members of every honest instance and checks with its own GMP code: all honest calls succeeded, QUAL and y agree, g^{x_i} equals the verification key every honest party holds, every (t+1)-subset of honest shares interpolates to one x with g^x = y, an honest dealer's secret is reconstructed everywhere, a faulty dealer is rejected by all or accepted by all with consistent shares, a refresh changes shares but neither secret nor key; bounded liveness: every honest party returns.",
+ note="trusted: harness interpolation/exponentiation (libgmp), SimUnicast; exclusion rule for runs outside the synchrony assumption")
+P["C16"] = dict(level="exploration", design="DESIGN.md 7.3", assumptions=SYNC + ["the library verifiers are probed with the produced signature and its altered / out-of-range copies (s+1, c+1 resp. r+1, s+q, r+q, 0, q); for the Schnorr verifier only +1 copies are asserted (it states no range condition)"],
+ quick=[leg("dkg","plain",400,16,8,600), leg("dkg","asan",40,10,4,900)],
+ thorough=[leg("dkg","plain",40000,16,32,600,1200), leg("dkg","asan",1500,10,8,900,600)],
+ text="Threshold Schnorr (New-DKG based) and threshold DSS runs between party tasks with up to t faulty signers, messages 0, 1, q-1, q and random, before and after a share refresh: whenever Sign returns true at an honest party the signature must satisfy the textbook Schnorr resp. DSA equation evaluated by harness code under the jointly generated key, all honest parties must hold the same signature, and the library's own verifier must accept it and refuse the altered and out-of-range copies.",
+ note="trusted: harness evaluation of the textbook equations (libgmp) with the library's hash function")
+P["C11"] = dict(level="exploration", design="DESIGN.md 7.10", assumptions=["scope: (i) persisted protocol state of PedersenVSS, New-DKG, Canetti et al. DKG and DSS at the phase boundaries reached in simulated multi-party histories (after Share / Generate / Refresh, incl. states with disqualified parties and publicly adjusted shares): PublishState -> destroy -> stream constructor -> PublishState must give the identical text and the run continues on the restored object; (ii) every card, card secret, stack, stack secret, group and shuffle-argument parameter set produced in the table simulations is exported, imported into a fresh object and exported again",
+   "not decided: crafted boundary integers (zero, negative, maximal length), dimensions not reached by the simulations, import into used objects - pure input quantification"],
+ quick=[leg("dkg","plain",700,16,8,600,None,["--restartall","1"]), leg("cards","plain",3000,16,8,120)],
+ thorough=[leg("dkg","plain",80000,16,32,600,900,["--restartall","1"]), leg("cards","plain",300000,16,64,120,600)],
+ text="Restart monitor inside the multi-party simulations (crash = destroy the protocol object at a phase boundary, only the PublishState text survives, restart = stream constructor; the restored party continues the protocol, e.g. signs with the restored key, and the C15/C16 oracles judge the outcome) plus a wire monitor in the table simulations (every exported object is re-imported into a fresh object, compared with == where the type has it, and re-exported).",
+ note="trusted: text comparison; the restored object's behaviour is judged by the C15/C16 oracles of the same run")
 P["C17"] = dict(level="exploration", design="DESIGN.md 7.4", assumptions=["two-party protocol between two tasks; multi-party protocol over the real reliable broadcast with SimUnicast underneath, synchrony as for C15"],
- quick=[leg("flip2","plain",6000,16,32,60), leg("flip2","asan",1500,10,16,60)],
- thorough=[leg("flip2","plain",400000,16,256,60,600), leg("flip2","asan",40000,10,64,60,300)],
- text="Two-party coin flip in both role assignments over a fragmenting stream pair: both parties must output the same coin, equal to the sum of the two opened shares read off the wire; the recorded history must show that no opening line was written before the peer's commitment line had been completely received; a relay that alters or drops any of the three lines of either direction, a peer that withholds its commitment (the honest party must never open), opens to another value, uses wrong randomness, sends value+q, commits outside the group or chooses its opening after seeing the honest one, and the library's own faulty switch must all lead to rejection.",
+ quick=[leg("flip2","plain",6000,16,32,60), leg("flip2","asan",1500,10,16,60), leg("dkg","plain",1500,16,8,600), leg("dkg","asan",150,10,4,900)],
+ thorough=[leg("flip2","plain",400000,16,256,60,600), leg("flip2","asan",40000,10,64,60,300), leg("dkg","plain",100000,16,32,600,900), leg("dkg","asan",4000,10,8,900,400)],
+ text="Two-party coin flip in both role assignments over a fragmenting stream pair: both parties must output the same coin, equal to the sum of the two opened shares read off the wire; the recorded history must show that no opening line was written before the peer's commitment line had been completely received; a relay that alters or drops any of the three lines of either direction, a peer that withholds its commitment (the honest party must never open), opens to another value, uses wrong randomness, sends value+q, commits outside the group or chooses its opening after seeing the honest one, and the library's own faulty switch must all lead to rejection. Multi-party flip (n=3..7 over the real reliable broadcast, up to t faulty parties): all honest parties must return the same coin.",
  note="trusted: harness wire-format peer; history sequence numbers stamped by the simulator")
 P["C18"] = dict(level="exploration", design="DESIGN.md 7.5", assumptions=["messages are members of the order-q subgroup (the protocol's message space)"],
  quick=[leg("ot","plain",8000,16,32,60), leg("ot","asan",1500,10,16,60)],
